@@ -210,16 +210,31 @@ def run(ck):
         if net is None: continue
         nlow += 1
         corpus.append((r[0], r[1], r[2], net[0]))
+    # networks with a jump v AND the collinear 2v (user-selected classes out to twice the shortest jump): the vacancy hop from a
+    # to -a across the fixed solute is a swing jump like any other
+    for nm in (("sc", "square") if ck.quick else ("sc", "square", "fcc", "bcc", "tria")):
+        c_, chem_ = gen.named(nm)
+        cn = sc.collinear_network(c_, chem_)
+        if cn is not None: corpus.append(("collinear-" + nm, c_, chem_, cn))
+    # noisy positions analysed with a loosened symmetry threshold (relaxed coordinates): everything must work with the
+    # crystal's own tolerance
+    for nm in (("hcp",) if ck.quick else ("hcp", "honeycomb", "polar")):
+        r = sc.noisy_crystal(nm, rng)
+        if r is not None: corpus.append((r[0], r[1], r[2], gen.shells(r[3], r[2])[0] + 1e-2))
     ncr = 0
     for label, crys, chem, fixedcut in itertools.chain(corpus, ((a, b, c, None) for a, b, c in gen.pool(rng, ncrys, random_frac=0.55))):
         ncr += 1
         in_corpus = ncr <= len(corpus)
-        light = ck.quick and label.startswith("chiral-")     # quick: Nthermo = 1 only, one history sequence
+        light = ck.quick and label.startswith(("chiral-", "collinear-", "noisy-"))     # quick: Nthermo = 1 only, one history sequence
         try:
             if in_corpus:
                 sh = gen.shells(crys, chem)
-                cut = fixedcut if fixedcut is not None else sh[0] + 1e-4     # nearest-neighbour network unless given
-                sl = crys.sitelist(chem); jn = crys.jumpnetwork(chem, cut)
+                sl = crys.sitelist(chem)
+                if isinstance(fixedcut, tuple):                                  # user-selected sub-network (description, network)
+                    cut, jn = fixedcut
+                else:
+                    cut = fixedcut if fixedcut is not None else sh[0] + 1e-4     # nearest-neighbour network unless given
+                    jn = crys.jumpnetwork(chem, cut)
             else:
                 net = gen.percolating_network(crys, chem, rng, maxjumps=ck.n(30, 60))
                 if net is None:
@@ -254,7 +269,7 @@ def run(ck):
                     bad.append(("states", "reverse of a first-shell state missing from the state list", {"state": missing[0]}))
                 c1, r1 = to_tr(crys, chem, K, j1)
                 c2, r2 = to_tr(crys, chem, K, j2)
-                if max(r1, r2) > 1e-8:
+                if max(r1, r2) > max(1e-8, crys.threshold):        # noisy positions: equivalent jumps carry the rotated dx
                     bad.append(("dx", "a jump displacement differs from the vacancy displacement by %.3g" % max(r1, r2), {}))
                 bad += eval_classes(c1, t1, v1, sts, ops, "omega1")
                 bad += eval_classes(c2, t2, v2, sts, ops, "omega2")
@@ -279,7 +294,7 @@ def run(ck):
             for key, msg, detail in bad:
                 violation(pre + key, msg, info, detail)
             ntr = sum(len(c) for c in c1)
-            ck.case(key=(label, repr(crys), round(cut, 5), Nth, src, korigin, json.dumps(extra, sort_keys=True, default=str)),
+            ck.case(key=(label, repr(crys), (round(cut, 5) if isinstance(cut, float) else str(cut)), Nth, src, korigin, json.dumps(extra, sort_keys=True, default=str)),
                     nontrivial=len(c1) >= 2, kind="%s:%dD-Nth%d" % (src, crys.dim, Nth),
                     sample={"source": src, "crystal": label, "cutoff": cut, "Nthermo": Nth, "kinetic_states": len(sts),
                             "omega1_classes": len(c1), "omega1_transitions": ntr, "omega2_classes": len(c2), "G": len(ops),
@@ -309,7 +324,7 @@ def run(ck):
                 continue
             judge("starset", Nth, S, origin, False, j1, t1, j2, t2, None)
             # (b) the calculator (pruned), when affordable
-            if S.Nstates + (0 if origin else nsites) <= vmcap:
+            if S.Nstates + (0 if origin else nsites) <= vmcap and not (ck.quick and Nth == 2 and label.startswith("lowsym")):
                 try:
                     d = OnsagerCalc.VacancyMediated(crys, chem, sl, jn, Nth)
                     freshvm[Nth] = d
@@ -319,7 +334,8 @@ def run(ck):
             else:
                 skipped["vacancymediated-too-large"] += 1
         # ---- history tier: the SAME objects asked again after their range changed (grown and shrunk) --------------------
-        if in_corpus or ncr - len(corpus) <= ck.n(2, 16):
+        if (in_corpus and (not ck.quick or label in ("fcc", "bcc", "honeycomb") or label.startswith("chiral-"))) \
+                or (not in_corpus and ncr - len(corpus) <= ck.n(2, 16)):
             def fresh_starset(N, o):
                 Sf = crystalStars.StarSet(jn, crys, chem, N, originstates=o)
                 f1, ft1, _ = Sf.jumpnetwork_omega1(); f2, ft2, _ = Sf.jumpnetwork_omega2()
